@@ -861,6 +861,39 @@ fn trunc(s: &str) -> String {
     }
 }
 
+/// files whose literal runs have exactly the sizes at which the reader's staging changes regime:
+/// multiples of the 64 KiB literal staging buffer and their neighbours — as a whole file without
+/// deflate content, in front of an accepted stream (counted up to and including the wrapper header),
+/// and behind the last stream
+pub fn literal_run_files(r: &mut Rng, thorough: bool) -> Vec<FileCase> {
+    let mut out = Vec::new();
+    let filler = |n: usize, salt: u8| -> Vec<u8> { (0..n).map(|i| b'A' + ((i as u8) ^ salt) % 7).collect() };
+    let mut sizes: Vec<usize> = vec![65535, 65536, 65537, 131072];
+    if thorough {
+        sizes.extend([131071, 131073, 196608, 262144, 65536 * 3 + 1]);
+    }
+    for &n in &sizes {
+        out.push(FileCase { bytes: filler(n, 0), label: format!("literal-run whole-file {n}") });
+        let (s, p, l) = clean_stream(r, 1500, 4000);
+        // in front of a zlib stream: the literal run is the filler plus the two header bytes
+        for delta in [0usize, 1, 2, 3] {
+            if n < delta + 2 { continue; }
+            let mut v = filler(n - delta, 1);
+            v.extend_from_slice(&zlib_wrap([0x78, 0x9c], &s, &p));
+            out.push(FileCase { bytes: v, label: format!("literal-run {n}-{delta} then zlib({l})") });
+        }
+        // behind the last stream (the Adler-32 belongs to the trailing literal run)
+        for delta in [0usize, 4, 5] {
+            if n < delta { continue; }
+            let mut v = vec![b'x'; 10];
+            v.extend_from_slice(&zlib_wrap([0x78, 0x9c], &s, &p));
+            v.extend_from_slice(&filler(n - delta, 2));
+            out.push(FileCase { bytes: v, label: format!("zlib({l}) then literal-run {n}-{delta}") });
+        }
+    }
+    out
+}
+
 pub fn c13_case(seed: u64, idx: u64, thorough: bool) -> Vec<CaseOut> {
     let mut r = Rng::new(seed ^ 0x13 ^ idx.wrapping_mul(0x9E3779B97F4A7C15));
     let fc = file_case(seed ^ 0x1313, idx, 6000);
@@ -1361,6 +1394,15 @@ pub fn run(ctx: &Ctx, prop: &str) -> (Summary, String, String) {
                 let fc = file_case(seed ^ 0x01, i, *[3000usize, 3000, 20000, 70000].get((i % 4) as usize).unwrap());
                 c01_bytes(&fc.bytes, &fc.label, i % 4 == 0)
             }));
+            let lr = literal_run_files(&mut Rng::new(seed ^ 0x11e), ctx.thorough());
+            let mut t = run_cases(ctx, lr.len() as u64, |i| {
+                let mut c = c01_bytes(&lr[i as usize].bytes, &lr[i as usize].label, i % 3 == 0);
+                c.requests.clear(); // too large for the line protocol; implementation oracle only
+                c.tags.push("literal-run".into());
+                c
+            });
+            t.samples.truncate(1);
+            merge(&mut s, t);
             // truncation sweep of a few structured files
             let nsweep = ctx.n(6, 60);
             for k in 0..nsweep {
@@ -1405,6 +1447,28 @@ pub fn run(ctx: &Ctx, prop: &str) -> (Summary, String, String) {
                     s.absorb(c);
                 }
             }
+            // literal runs at the staging-buffer sizes, fragmented and with a late sink fault
+            let lr = literal_run_files(&mut Rng::new(seed ^ 0x11e), ctx.thorough());
+            let mut t = run_cases(ctx, lr.len() as u64, |i| {
+                let f = &lr[i as usize].bytes;
+                let mut r = Rng::new(seed ^ 0x13e ^ i);
+                let mut out = CaseOut::default();
+                if let Run::Done(Ok(c)) = guarded(|| expand_zlib_chunks(f, 0)) {
+                    if matches!(recreate_plain(&c), Run::Done(Ok(ref g)) if g == f) {
+                        let rs = random_sched(&mut r, 400, 2);
+                        let ws = random_sched(&mut r, 400, 3);
+                        out = c13_check(f, &c, &rs, &ws, None, None, &lr[i as usize].label);
+                        let o = f.len() - 1 - r.below(70000.min(f.len() as u64 - 1)) as usize;
+                        let o2 = c13_check(f, &c, &[], &[], None, Some(o), &lr[i as usize].label);
+                        out.failures.extend(o2.failures);
+                    }
+                }
+                out.requests.clear();
+                out.tags.push("literal-run".into());
+                out
+            });
+            t.samples.truncate(1);
+            merge(&mut s, t);
             (s, "containers of the C01 generator that round-trip unfragmented x read schedules (1-byte, 1..7, large, with Interrupted) x write schedules (same, plus zero-length writes) x a hard error at every source/sink offset for containers <= 64 bytes and at sampled offsets otherwise. Checked: no panic; no error delivered => Ok and identical output; error delivered => Err and sink is a prefix. Non-trivial = container longer than the version byte; distinct by (container, schedules, fault offsets).".into(), String::new())
         }
         "C11" => {
